@@ -94,17 +94,37 @@ func (c Compressor) DecompressWithLength(source io.Reader, dest io.Writer) error
 		}
 		return nil
 	}
-	return c.Decompress(source, dest)
+	// the decompressed length is known: use a destination buffer of exactly that size
+	if compressedMessage, err := bufferFromReader(source); err != nil {
+		return fmt.Errorf("cannot read compressed message: %w", err)
+	} else if uint64(decompressedLength) > uint64(len(compressedMessage))*maxCompressionRatio {
+		return fmt.Errorf("cannot decompress message: invalid decompressed length: %d", decompressedLength)
+	} else {
+		decompressedMessage := make([]byte, decompressedLength)
+		if written, err := lz4.UncompressBlock(compressedMessage, decompressedMessage); err != nil {
+			return fmt.Errorf("cannot decompress message: %w", err)
+		} else if _, err := dest.Write(decompressedMessage[:written]); err != nil {
+			return fmt.Errorf("cannot write decompressed message: %w", err)
+		}
+		return nil
+	}
 }
 
+// The LZ4 block format cannot expand a block by a factor greater than 255.
+const maxCompressionRatio = 255
+
 func decompress(source []byte) (dest []byte, err error) {
+	// an empty message is compressed to a block made of a single, zero token
+	if len(source) == 1 && source[0] == 0 {
+		return []byte{}, nil
+	}
 	// try destination buffers of increased length to avoid allocating too much space, starting with twice the
-	// compressed length and up to eight times the compressed length
+	// compressed length and up to the maximum compression ratio
 	compressedLength := len(source)
 	var written int
-	for i := compressedLength * 2; i <= compressedLength*8; i *= 2 {
+	for i := compressedLength * 2; ; i *= 2 {
 		dest = make([]byte, i)
-		if written, err = lz4.UncompressBlock(source, dest); err == nil {
+		if written, err = lz4.UncompressBlock(source, dest); err == nil || i >= compressedLength*maxCompressionRatio {
 			break
 		}
 	}
